@@ -40,8 +40,12 @@ import Cx.Proofs.Utf8
         isBranchDispatchPattern_eq              predicate = "meta builds a dispatcher"
         branchDispatcher_eq_reference, branchDispatcher_isMatch_eq_reference
                                                 (hyps. `FoldSound hasFold`, `RefDepthOK re`: neither restricts the dispatcher)
-  (5) ExtractFirstBytes  (nfa/firstbytes.go)
-        extract_sound, firstBytes_filter_sound (hyp. `fbFrag`)
+  (5) ExtractFirstBytes  (nfa/firstbytes.go, after the case-folding / multi-byte fix)
+        extract_inv, firstBytes_complete        any pattern: non-nil ⇒ `complete`, `count` = number of members
+        firstBytes_literal_orbit                every member of the `SimpleFold` orbit contributes its lead byte
+        extract_sound, firstBytes_filter_sound  (hyps. `fbFrag`: no zero-width node in first position, no U+FFFD literal;
+                                                `OrbitSound`: a fact about `unicode.SimpleFold`)
+        firstBytes_reject_sound                 the callers' shortcut for `\A…`: byte not in the set ⇒ no match at all
 -/
 namespace Cx.Fast
 open Cx Cx.Fast.Spec
@@ -1866,12 +1870,49 @@ theorem Table.mem_set (t : Table) (i j : Nat) (v : Bool) :
     · simp [hi]
   · simp [hij]
 
+/-- marking one more element of a duplicate-free list raises the count by one -/
+theorem countP_mark (p : Nat → Bool) (b : Nat) (hp : p b = false) :
+    ∀ (l : List Nat), l.Nodup →
+      l.countP (fun j => if b = j then true else p j) = l.countP p + (if b ∈ l then 1 else 0) := by
+  intro l
+  induction l with
+  | nil => intro _; rfl
+  | cons a l ih =>
+    intro hn
+    rw [List.nodup_cons] at hn
+    rw [List.countP_cons, List.countP_cons, ih hn.2]
+    by_cases hab : b = a
+    · subst hab
+      have : ¬ b ∈ l := hn.1
+      simp [hp, this]
+    · have hne : ¬ a = b := fun h => hab h.symm
+      simp only [hab, if_false, List.mem_cons, false_or]
+      omega
+
 namespace FirstByteSet
 
 /-- the invariant every set built by `ExtractFirstBytes` satisfies -/
 def Ok (f : FirstByteSet) : Prop := f.bytes.size = 256
 
+/-- `count` is the number of members -/
+def CountOK (f : FirstByteSet) : Prop := f.count = (List.range 256).countP f.bytes.mem
+
 theorem ok_empty : ({} : FirstByteSet).Ok := by simp [Ok]
+
+theorem mem_empty (j : Nat) : ({} : FirstByteSet).bytes.mem j = false := by
+  unfold Table.mem
+  simp only [Array.getD_eq_getD_getElem?]
+  by_cases hj : j < 256
+  · simp [hj]
+  · simp [hj]
+
+theorem countOK_empty : ({} : FirstByteSet).CountOK := by
+  unfold CountOK
+  have : (List.range 256).countP ({} : FirstByteSet).bytes.mem = 0 := by
+    rw [List.countP_eq_zero]
+    intro j _
+    rw [mem_empty]; simp
+  rw [this]
 
 theorem addNew_ok (f : FirstByteSet) (b : Nat) (hf : f.Ok) : (f.addNew b).Ok := by
   unfold addNew Ok at *
@@ -1895,18 +1936,26 @@ theorem addNew_mem (f : FirstByteSet) (b j : Nat) (hf : f.Ok) :
       · simp [hb]
     · simp [hbj]
 
-theorem addAlways_ok (f : FirstByteSet) (b : Nat) (hf : f.Ok) : (f.addAlways b).Ok := by
-  unfold addAlways Ok at *; simp [hf]
+theorem addNew_complete (f : FirstByteSet) (b : Nat) : (f.addNew b).complete = f.complete := by
+  unfold addNew
+  split <;> rfl
 
-theorem addAlways_mem (f : FirstByteSet) (b j : Nat) (hf : f.Ok) :
-    (f.addAlways b).bytes.mem j = (f.bytes.mem j || (decide (b = j) && decide (b < 256))) := by
+theorem addNew_countOK (f : FirstByteSet) (b : Nat) (hf : f.Ok) (hb : b < 256) (hc : f.CountOK) : (f.addNew b).CountOK := by
   unfold Ok at hf
-  unfold addAlways
-  simp only [Table.mem_set, hf]
-  by_cases hbj : b = j
-  · subst hbj
-    by_cases hb : b < 256 <;> simp [hb]
-  · simp [hbj]
+  unfold CountOK at *
+  unfold addNew
+  split
+  · exact hc
+  · rename_i hm
+    simp only [Bool.not_eq_true] at hm
+    have hfun : Table.mem (f.bytes.setIfInBounds b true) = fun j => if b = j then true else f.bytes.mem j := by
+      funext j
+      rw [Table.mem_set, hf]
+      by_cases hbj : b = j
+      · rw [if_pos ⟨hbj, hb⟩, if_pos hbj]
+      · rw [if_neg (fun hh => hbj hh.1), if_neg hbj]
+    show f.count + 1 = (List.range 256).countP (Table.mem (f.bytes.setIfInBounds b true))
+    rw [hfun, countP_mark f.bytes.mem b hm _ List.nodup_range, hc, if_pos (List.mem_range.mpr hb)]
 
 theorem foldl_addNew_ok (l : List Nat) (f : FirstByteSet) (hf : f.Ok) : (l.foldl addNew f).Ok := by
   induction l generalizing f with
@@ -1923,6 +1972,20 @@ theorem foldl_addNew_mem (l : List Nat) (f : FirstByteSet) (hf : f.Ok) (j : Nat)
     · subst haj; by_cases ha : a < 256 <;> simp [ha]
     · have : ¬ j = a := fun h => haj h.symm
       simp [haj, this]
+
+theorem foldl_addNew_complete (l : List Nat) (f : FirstByteSet) : (l.foldl addNew f).complete = f.complete := by
+  induction l generalizing f with
+  | nil => rfl
+  | cons a l ih => rw [List.foldl_cons, ih, addNew_complete]
+
+theorem foldl_addNew_countOK (l : List Nat) (hl : ∀ b ∈ l, b < 256) (f : FirstByteSet) (hf : f.Ok) (hc : f.CountOK) :
+    (l.foldl addNew f).CountOK := by
+  induction l generalizing f with
+  | nil => exact hc
+  | cons a l ih =>
+    rw [List.foldl_cons]
+    exact ih (fun b hb => hl b (List.mem_cons_of_mem _ hb)) _ (addNew_ok f a hf)
+      (addNew_countOK f a hf (hl a List.mem_cons_self) hc)
 
 end FirstByteSet
 
@@ -1948,24 +2011,21 @@ theorem addRange_mem (k : Nat) : ∀ (f : FirstByteSet) (r j : Nat), f.Ok →
       · have : ¬ r ≤ j := by omega
         simp [hrj, h1, this]
 
-theorem addRange_count (k : Nat) : ∀ (f : FirstByteSet) (r : Nat), f.count ≤ (addRange f k r).count := by
-  induction k with
-  | zero => intro f r; exact Nat.le_refl _
-  | succ k ih =>
-    intro f r
-    rw [addRange]
-    refine Nat.le_trans ?_ (ih _ _)
-    unfold FirstByteSet.addNew
-    split <;> simp
-
 theorem addRange_complete (k : Nat) : ∀ (f : FirstByteSet) (r : Nat), (addRange f k r).complete = f.complete := by
   induction k with
   | zero => intro f r; rfl
   | succ k ih =>
     intro f r
-    rw [addRange, ih]
-    unfold FirstByteSet.addNew
-    split <;> rfl
+    rw [addRange, ih, FirstByteSet.addNew_complete]
+
+theorem addRange_countOK (k : Nat) : ∀ (f : FirstByteSet) (r : Nat), (k = 0 ∨ r + k ≤ 256) → f.Ok → f.CountOK →
+    (addRange f k r).CountOK := by
+  induction k with
+  | zero => intro f r _ _ hc; exact hc
+  | succ k ih =>
+    intro f r hr hf hc
+    rw [addRange]
+    exact ih _ _ (by omega) (FirstByteSet.addNew_ok f r hf) (FirstByteSet.addNew_countOK f r hf (by omega) hc)
 
 theorem addClassRanges_ok (rs : List (Nat × Nat)) : ∀ (f : FirstByteSet), f.Ok → (addClassRanges f rs).Ok := by
   induction rs with
@@ -1975,7 +2035,7 @@ theorem addClassRanges_ok (rs : List (Nat × Nat)) : ∀ (f : FirstByteSet), f.O
     obtain ⟨lo, hi⟩ := p
     rw [addClassRanges]
     split
-    · exact ih f hf
+    · exact ih _ (addRange_ok _ _ _ (addRange_ok _ _ _ hf))
     · exact ih _ (addRange_ok _ _ _ hf)
 
 theorem addClassRanges_complete (rs : List (Nat × Nat)) : ∀ (f : FirstByteSet),
@@ -1987,12 +2047,27 @@ theorem addClassRanges_complete (rs : List (Nat × Nat)) : ∀ (f : FirstByteSet
     obtain ⟨lo, hi⟩ := p
     rw [addClassRanges]
     split
-    · exact ih f
-    · simp only []; rw [ih, addRange_complete]
+    · rw [ih, addRange_complete, addRange_complete]
+    · rw [ih, addRange_complete]
 
+theorem addClassRanges_countOK (rs : List (Nat × Nat)) : ∀ (f : FirstByteSet), f.Ok → f.CountOK →
+    (addClassRanges f rs).CountOK := by
+  induction rs with
+  | nil => intro f _ hc; exact hc
+  | cons p rs ih =>
+    intro f hf hc
+    obtain ⟨lo, hi⟩ := p
+    rw [addClassRanges]
+    split
+    · exact ih _ (addRange_ok _ _ _ (addRange_ok _ _ _ hf))
+        (addRange_countOK _ _ _ (by omega) (addRange_ok _ _ _ hf) (addRange_countOK _ _ _ (by omega) hf hc))
+    · exact ih _ (addRange_ok _ _ _ hf) (addRange_countOK _ _ _ (by omega) hf hc)
+
+/-- membership after the class loop: a range reaching above U+007F contributes every byte `≥ 0x80` and its ASCII part -/
 theorem addClassRanges_mem (rs : List (Nat × Nat)) : ∀ (f : FirstByteSet) (j : Nat), f.Ok →
     (addClassRanges f rs).bytes.mem j =
-      (f.bytes.mem j || (decide (j < 256) && rs.any fun p => decide (p.1 ≤ j) && decide (j ≤ p.2))) := by
+      (f.bytes.mem j || (decide (j < 256) && rs.any fun p =>
+        (decide (p.2 > 0x7F) && decide (128 ≤ j)) || (decide (p.1 ≤ j) && decide (j ≤ p.2) && decide (j ≤ 0x7F)))) := by
   induction rs with
   | nil => intro f j _; simp [addClassRanges]
   | cons p rs ih =>
@@ -2000,23 +2075,38 @@ theorem addClassRanges_mem (rs : List (Nat × Nat)) : ∀ (f : FirstByteSet) (j 
     obtain ⟨lo, hi⟩ := p
     rw [addClassRanges]
     split
-    · rename_i hlo
-      rw [ih f j hf, List.any_cons]
+    · rename_i hhi
+      rw [ih _ j (addRange_ok _ _ _ (addRange_ok _ _ _ hf)), addRange_mem _ _ _ _ (addRange_ok _ _ _ hf),
+        addRange_mem _ _ _ _ hf, List.any_cons]
+      generalize (rs.any fun p =>
+        (decide (p.2 > 0x7F) && decide (128 ≤ j)) || (decide (p.1 ≤ j) && decide (j ≤ p.2) && decide (j ≤ 0x7F))) = R
+      generalize f.bytes.mem j = M
       by_cases hj : j < 256
-      · have : ¬ lo ≤ j := by omega
-        simp [this]
+      · by_cases h1 : 128 ≤ j
+        · have : j < 128 + 128 := by omega
+          have h3 : ¬ j ≤ 127 := by omega
+          simp [hj, h1, hhi, h3]
+        · have h3 : j ≤ 127 := by omega
+          have h4 : j ≤ hi := by omega
+          by_cases h2 : lo ≤ j
+          · have : j < lo + (127 + 1 - lo) := by omega
+            simp [hj, h1, hhi, h2, h3, h4, this]
+          · simp [hj, h1, hhi, h2, h3]
       · simp [hj]
-    · rename_i hlo
-      simp only []
+    · rename_i hhi
       rw [ih _ j (addRange_ok _ _ _ hf), addRange_mem _ _ _ _ hf, List.any_cons]
+      generalize (rs.any fun p =>
+        (decide (p.2 > 0x7F) && decide (128 ≤ j)) || (decide (p.1 ≤ j) && decide (j ≤ p.2) && decide (j ≤ 0x7F))) = R
+      generalize f.bytes.mem j = M
       by_cases hj : j < 256
       · by_cases h1 : lo ≤ j
         · by_cases h2 : j ≤ hi
-          · have : j < lo + ((if hi > 255 then 255 else hi) + 1 - lo) := by split <;> omega
-            simp [hj, h1, h2, this]
-          · have : ¬ j < lo + ((if hi > 255 then 255 else hi) + 1 - lo) := by split <;> omega
-            simp [hj, h1, h2, this]
-        · simp [hj, h1]
+          · have : j < lo + (hi + 1 - lo) := by omega
+            have h3 : j ≤ 127 := by omega
+            simp [hj, h1, h2, hhi, this, h3]
+          · have : ¬ j < lo + (hi + 1 - lo) := by omega
+            simp [hj, h1, h2, hhi, this]
+        · simp [hj, h1, hhi]
       · simp [hj]
 
 namespace Ref
@@ -2095,7 +2185,13 @@ theorem run_rep_succ (h : Bytes) (f : Nat) (x : Re) (m : Nat) (mx : Option Nat) 
 
 end Ref
 
-/-! ### the first-byte set as a rejection filter: soundness on an ASCII, case-sensitive, anchor-free fragment -/
+/-! ### the first-byte set as a rejection filter
+
+  Two results about `extractFirstBytesRec`:
+  * `extract_inv` (no hypothesis on the pattern): a successful step keeps the table a 256-entry table, only adds
+    members, keeps `complete`, and keeps `count` equal to the number of members;
+  * `extract_sound` (hypothesis `fbFrag`, see Cx.Spec.Fast): every successful run of the reference matcher that starts
+    INSIDE the haystack starts on a member of the set. -/
 
 theorem decode_ascii_inv (h : Bytes) (pos : Nat) (hw : (Utf8.decodeAt h pos).2 > 0)
     (hc : (Utf8.decodeAt h pos).1 ≤ 127) : h.at pos = (Utf8.decodeAt h pos).1 ∧ pos < h.size := by
@@ -2118,34 +2214,62 @@ theorem decode_width_pos (h : Bytes) (pos : Nat) (hw : (Utf8.decodeAt h pos).2 >
   rw [Utf8.decode_at_end h pos (by omega)] at hw
   simp at hw
 
-theorem foldl_addNew_complete (l : List Nat) (f : FirstByteSet) :
-    (l.foldl FirstByteSet.addNew f).complete = f.complete := by
-  induction l generalizing f with
-  | nil => rfl
-  | cons a l ih =>
-    rw [List.foldl_cons, ih]
-    unfold FirstByteSet.addNew
-    split <;> rfl
+/-- a non-ASCII first byte never decodes to an ASCII rune -/
+theorem decode_high (h : Bytes) (pos : Nat) (hw : (Utf8.decodeAt h pos).2 > 0) (hb : 128 ≤ h.at pos) :
+    128 ≤ (Utf8.decodeAt h pos).1 := by
+  false_or_by_contra
+  have := (decode_ascii_inv h pos hw (by omega)).1
+  omega
 
-/-- every successful run of the task starts on a byte of `S` -/
+/-- `utf8.EncodeRune` writes a byte -/
+theorem encodeFirst_lt (m : Nat) : encodeFirst m < 256 := by
+  unfold encodeFirst Utf8.encode Utf8.maxRune
+  split
+  · simp only [List.headD_cons]; omega
+  · split
+    · simp only [List.headD_cons]; omega
+    · split
+      · simp only [List.headD_cons]; omega
+      · split
+        · simp only [List.headD_cons]; omega
+        · simp only [List.headD_cons]; omega
+
+/-- unless the decoder reports U+FFFD, the byte it started on is the first byte of the encoding of the rune it reports -/
+theorem decode_first_byte (h : Bytes) (pos : Nat) (hb : ∀ k, h.at k < 256) (hw : (Utf8.decodeAt h pos).2 > 0)
+    (hc : (Utf8.decodeAt h pos).1 ≠ Utf8.runeError) : h.at pos = encodeFirst (Utf8.decodeAt h pos).1 := by
+  have hp := decode_width_pos h pos hw
+  by_cases h1 : (Utf8.decodeAt h pos).2 = 1
+  · rcases Utf8.decode_width_one h pos hp h1 with ⟨hlt, he⟩ | ⟨_, he⟩
+    · rw [he]
+      unfold encodeFirst Utf8.encode
+      rw [if_pos hlt]
+      rfl
+    · exact absurd he hc
+  · have henc := Utf8.decode_wide_is_encoding h pos hb (by omega)
+    unfold encodeFirst
+    rw [← henc]
+    obtain ⟨w, hw'⟩ : ∃ w, (Utf8.decodeAt h pos).2 = w + 1 := ⟨(Utf8.decodeAt h pos).2 - 1, by omega⟩
+    rw [hw', List.range_succ_eq_map, List.map_cons, List.headD_cons, Nat.add_zero]
+
+/-- every successful run of the task that starts inside the haystack starts on a byte of `S` -/
 def FirstOK (S : Nat → Bool) (t : Ref.Task) : Prop :=
-  ∀ (h : Bytes), (∀ i, h.at i < 256) → ∀ f pos k e, Ref.run h f t pos k = some e → S (h.at pos) = true
+  ∀ (h : Bytes), (∀ i, h.at i < 256) → ∀ f pos k e, Ref.run h f t pos k = some e → pos < h.size → S (h.at pos) = true
 
 theorem FirstOK.mono {S S' : Nat → Bool} {t : Ref.Task} (hs : ∀ j, S j = true → S' j = true) (h : FirstOK S t) :
-    FirstOK S' t := fun hh hb f pos k e hr => hs _ (h hh hb f pos k e hr)
+    FirstOK S' t := fun hh hb f pos k e hr hp => hs _ (h hh hb f pos k e hr hp)
 
 theorem firstOK_seq_cons {S : Nat → Bool} {x : Re} (xs : List Re) (hx : FirstOK S (.one x)) :
     FirstOK S (.seq (x :: xs)) := by
-  intro h hb f pos k e hr
+  intro h hb f pos k e hr hp
   cases f with
   | zero => rw [Ref.run_zero] at hr; exact nomatch hr
   | succ f =>
     rw [Ref.run_seq_cons] at hr
-    exact hx h hb f pos _ e hr
+    exact hx h hb f pos _ e hr hp
 
 theorem firstOK_seq_anchor {S : Nat → Bool} {a : Re} (xs : List Re) (ha : a.op = .beginLine ∨ a.op = .beginText)
     (hxs : FirstOK S (.seq xs)) : FirstOK S (.seq (a :: xs)) := by
-  intro h hb f pos k e hr
+  intro h hb f pos k e hr hp
   cases f with
   | zero => rw [Ref.run_zero] at hr; exact nomatch hr
   | succ f =>
@@ -2156,10 +2280,10 @@ theorem firstOK_seq_anchor {S : Nat → Bool} {a : Re} (xs : List Re) (ha : a.op
       rw [Ref.run_one] at hr
       rcases ha with ha | ha <;> rw [ha] at hr <;> simp only [] at hr
       · split at hr
-        · exact hxs h hb _ pos k e hr
+        · exact hxs h hb _ pos k e hr hp
         · exact nomatch hr
       · split at hr
-        · exact hxs h hb _ pos k e hr
+        · exact hxs h hb _ pos k e hr hp
         · exact nomatch hr
 
 theorem firstOK_seq_find {S : Nat → Bool} (l : List Re) (x : Re)
@@ -2180,12 +2304,12 @@ theorem firstOK_seq_find {S : Nat → Bool} (l : List Re) (x : Re)
 theorem firstOK_alts {S : Nat → Bool} (l : List Re) (hl : ∀ x ∈ l, FirstOK S (.one x)) : FirstOK S (.alts l) := by
   induction l with
   | nil =>
-    intro h hb f pos k e hr
+    intro h hb f pos k e hr _
     cases f with
     | zero => rw [Ref.run_zero] at hr; exact nomatch hr
     | succ f => rw [Ref.run_alts_nil] at hr; exact nomatch hr
   | cons x xs ih =>
-    intro h hb f pos k e hr
+    intro h hb f pos k e hr hp
     cases f with
     | zero => rw [Ref.run_zero] at hr; exact nomatch hr
     | succ f =>
@@ -2193,34 +2317,128 @@ theorem firstOK_alts {S : Nat → Bool} (l : List Re) (hl : ∀ x ∈ l, FirstOK
       unfold Ref.orElse at hr
       split at hr
       · rename_i e' he
-        exact hl x List.mem_cons_self h hb f pos k e' he
-      · exact ih (fun y hy => hl y (List.mem_cons_of_mem _ hy)) h hb f pos k e hr
+        exact hl x List.mem_cons_self h hb f pos k e' he hp
+      · exact ih (fun y hy => hl y (List.mem_cons_of_mem _ hy)) h hb f pos k e hr hp
 
-/-- what one successful extraction step guarantees -/
-structure ExtractOK (re : Re) (res res' : FirstByteSet) : Prop where
+/-- what one successful extraction step guarantees on EVERY pattern -/
+structure ExtractInv (res res' : FirstByteSet) : Prop where
   ok : res'.Ok
   mono : ∀ j, res.bytes.mem j = true → res'.bytes.mem j = true
   complete : res'.complete = res.complete
-  first : FirstOK res'.bytes.mem (.one re)
+  count : res.CountOK → res'.CountOK
 
-theorem altLoop_sound (fuel : Nat)
-    (ih : ∀ re res res', res.Ok → extractFirstBytesRec fuel re res = (true, res') → fbFrag fuel re = true →
-      ExtractOK re res res') :
-    ∀ (l : List Re) (res res' : FirstByteSet), res.Ok → altLoop (extractFirstBytesRec fuel) l res = (true, res') →
-      (∀ x ∈ l, fbFrag fuel x = true) →
-      res'.Ok ∧ (∀ j, res.bytes.mem j = true → res'.bytes.mem j = true) ∧ res'.complete = res.complete ∧
-        ∀ x ∈ l, FirstOK res'.bytes.mem (.one x) := by
+theorem ExtractInv.refl (res : FirstByteSet) (hok : res.Ok) : ExtractInv res res :=
+  ⟨hok, fun _ hj => hj, rfl, fun hc => hc⟩
+
+theorem ExtractInv.trans {a b c : FirstByteSet} (h1 : ExtractInv a b) (h2 : ExtractInv b c) : ExtractInv a c :=
+  ⟨h2.ok, fun j hj => h2.mono j (h1.mono j hj), by rw [h2.complete, h1.complete], fun hc => h2.count (h1.count hc)⟩
+
+theorem foldl_addNew_inv (l : List Nat) (hl : ∀ b ∈ l, b < 256) (res : FirstByteSet) (hok : res.Ok) :
+    ExtractInv res (l.foldl FirstByteSet.addNew res) :=
+  ⟨FirstByteSet.foldl_addNew_ok _ res hok,
+   fun j hj => by rw [FirstByteSet.foldl_addNew_mem _ res hok, hj]; rfl,
+   FirstByteSet.foldl_addNew_complete _ res,
+   fun hc => FirstByteSet.foldl_addNew_countOK l hl res hok hc⟩
+
+theorem altLoop_inv (fo : Nat → List Nat) (fuel : Nat)
+    (ih : ∀ re res res', res.Ok → extractFirstBytesRec fo fuel re res = (true, res') → ExtractInv res res') :
+    ∀ (l : List Re) (res res' : FirstByteSet), res.Ok → altLoop (extractFirstBytesRec fo fuel) l res = (true, res') →
+      ExtractInv res res' := by
   intro l
   induction l with
   | nil =>
-    intro res res' hok hl _
+    intro res res' hok hl
     rw [altLoop] at hl
     cases hl
-    exact ⟨hok, fun _ hj => hj, rfl, fun x hx => nomatch hx⟩
+    exact ExtractInv.refl res hok
+  | cons x xs ihl =>
+    intro res res' hok hl
+    rw [altLoop] at hl
+    cases hx : extractFirstBytesRec fo fuel x res with
+    | mk b res1 =>
+      rw [hx] at hl
+      cases b with
+      | false => simp only [] at hl; cases hl
+      | true =>
+        simp only [] at hl
+        have h1 := ih x res res1 hok hx
+        exact h1.trans (ihl res1 res' h1.ok hl)
+
+/-- a successful step of `extractFirstBytesRecursive`, on ANY pattern: the table stays a 256-entry table, members are
+    only added, `complete` is untouched, `count` stays the number of members -/
+theorem extract_inv (fo : Nat → List Nat) : ∀ fuel re res res', res.Ok →
+    extractFirstBytesRec fo fuel re res = (true, res') → ExtractInv res res' := by
+  intro fuel
+  induction fuel with
+  | zero => intro re res res' _ hx; rw [extractFirstBytesRec] at hx; cases hx
+  | succ fuel ih =>
+    intro re res res' hok hx
+    rw [extractFirstBytesRec] at hx
+    have one : ∀ (b : Bool) (r : FirstByteSet), (match re.sub with
+        | [x] => extractFirstBytesRec fo fuel x res
+        | _ => (false, res)) = (true, res') → ExtractInv res res' := by
+      intro _ _ hx
+      cases hsub : re.sub with
+      | nil => rw [hsub] at hx; cases hx
+      | cons x xs =>
+        cases xs with
+        | cons _ _ => rw [hsub] at hx; cases hx
+        | nil => rw [hsub] at hx; exact ih x res res' hok hx
+    cases hop : re.op <;> rw [hop] at hx <;> simp only [] at hx
+    all_goals first | exact absurd (show false = true from congrArg Prod.fst hx) Bool.false_ne_true | skip
+    · -- literal
+      cases hrune : re.rune with
+      | nil => rw [hrune] at hx; cases hx
+      | cons r rs =>
+        rw [hrune] at hx
+        simp only [] at hx
+        cases hx
+        exact foldl_addNew_inv _ (fun b hb => by
+          obtain ⟨m, _, rfl⟩ := List.mem_map.mp hb
+          exact encodeFirst_lt m) res hok
+    · -- charClass
+      obtain ⟨_, hres⟩ := Prod.mk.inj hx
+      subst hres
+      exact ⟨addClassRanges_ok _ res hok, fun j hj => by rw [addClassRanges_mem _ res j hok, hj]; rfl,
+        addClassRanges_complete _ res, fun hc => addClassRanges_countOK _ res hok hc⟩
+    · -- anyCharNotNL
+      obtain ⟨_, hres⟩ := Prod.mk.inj hx
+      subst hres
+      exact foldl_addNew_inv _ (fun b hb => List.mem_range.mp (List.mem_filter.mp hb).1) res hok
+    · -- anyChar
+      obtain ⟨_, hres⟩ := Prod.mk.inj hx
+      subst hres
+      exact foldl_addNew_inv _ (fun b hb => List.mem_range.mp hb) res hok
+    · cases hx; exact ExtractInv.refl res hok   -- beginLine
+    · cases hx; exact ExtractInv.refl res hok   -- endLine
+    · cases hx; exact ExtractInv.refl res hok   -- beginText
+    · cases hx; exact ExtractInv.refl res hok   -- endText
+    · exact one true res hx                      -- capture
+    · exact one true res hx                      -- plus
+    · -- repeat_
+      split at hx
+      · cases hx
+      · exact one true res hx
+    · -- concat
+      cases hfind : re.sub.find? (fun s => !(decide (s.op = .beginLine) || decide (s.op = .beginText))) with
+      | none => rw [hfind] at hx; cases hx
+      | some x => rw [hfind] at hx; exact ih x res res' hok hx
+    · -- alternate
+      exact altLoop_inv fo fuel ih re.sub res res' hok hx
+
+theorem altLoop_sound (fo : Nat → List Nat) (fuel : Nat)
+    (ih : ∀ re res res', res.Ok → extractFirstBytesRec fo fuel re res = (true, res') → fbFrag fuel re = true →
+      FirstOK res'.bytes.mem (.one re)) :
+    ∀ (l : List Re) (res res' : FirstByteSet), res.Ok → altLoop (extractFirstBytesRec fo fuel) l res = (true, res') →
+      (∀ x ∈ l, fbFrag fuel x = true) → ∀ x ∈ l, FirstOK res'.bytes.mem (.one x) := by
+  intro l
+  induction l with
+  | nil => intro res res' _ _ _ x hx; exact nomatch hx
   | cons x xs ihl =>
     intro res res' hok hl hfr
+    have hl' := hl
     rw [altLoop] at hl
-    cases hx : extractFirstBytesRec fuel x res with
+    cases hx : extractFirstBytesRec fo fuel x res with
     | mk b res1 =>
       rw [hx] at hl
       cases b with
@@ -2228,14 +2446,16 @@ theorem altLoop_sound (fuel : Nat)
       | true =>
         simp only [] at hl
         have h1 := ih x res res1 hok hx (hfr x List.mem_cons_self)
-        obtain ⟨h2ok, h2mono, h2c, h2f⟩ := ihl res1 res' h1.ok hl (fun y hy => hfr y (List.mem_cons_of_mem _ hy))
-        refine ⟨h2ok, fun j hj => h2mono j (h1.mono j hj), by rw [h2c, h1.complete], fun y hy => ?_⟩
+        have i1 := extract_inv fo fuel x res res1 hok hx
+        have i2 := altLoop_inv fo fuel (extract_inv fo fuel) xs res1 res' i1.ok hl
+        intro y hy
         rcases List.mem_cons.mp hy with rfl | hy
-        · exact h1.first.mono h2mono
-        · exact h2f y hy
+        · exact h1.mono i2.mono
+        · exact ihl res1 res' i1.ok hl (fun z hz => hfr z (List.mem_cons_of_mem _ hz)) y hy
 
-theorem extract_sound : ∀ fuel re res res', res.Ok → extractFirstBytesRec fuel re res = (true, res') →
-    fbFrag fuel re = true → ExtractOK re res res' := by
+/-- **the set collects the first byte of every match**, on the fragment `fbFrag` (Cx.Spec.Fast) -/
+theorem extract_sound (fo : Nat → List Nat) (hfo : OrbitSound fo) : ∀ fuel re res res', res.Ok →
+    extractFirstBytesRec fo fuel re res = (true, res') → fbFrag fuel re = true → FirstOK res'.bytes.mem (.one re) := by
   intro fuel
   induction fuel with
   | zero => intro re res res' _ _ hfr; exact nomatch hfr
@@ -2246,98 +2466,137 @@ theorem extract_sound : ∀ fuel re res res', res.Ok → extractFirstBytesRec fu
     cases hop : re.op <;> rw [hop] at hx hfr <;> simp only [] at hx hfr
     all_goals first | exact absurd hfr (by decide) | skip
     · -- literal
-      simp only [Bool.and_eq_true, Bool.not_eq_true'] at hfr
-      obtain ⟨hfold, hr⟩ := hfr
       cases hrune : re.rune with
-      | nil => rw [hrune] at hr; exact nomatch hr
+      | nil => rw [hrune] at hfr; exact nomatch hfr
       | cons r rs =>
-        rw [hrune] at hx hr
-        simp only [decide_eq_true_eq] at hr
+        rw [hrune] at hx hfr
+        simp only [decide_eq_true_eq] at hfr
         simp only [] at hx
-        rw [if_neg (by omega)] at hx
         cases hx
-        refine ⟨FirstByteSet.addAlways_ok res r hok, fun j hj => ?_, rfl, ?_⟩
-        · rw [FirstByteSet.addAlways_mem res r j hok, hj]; rfl
-        · intro h hb f pos k e hrun
+        intro h hb f pos k e hrun hp
+        cases f with
+        | zero => rw [Ref.run_zero] at hrun; exact nomatch hrun
+        | succ f =>
+          rw [Ref.run_one, hop] at hrun
+          simp only [] at hrun
           cases f with
           | zero => rw [Ref.run_zero] at hrun; exact nomatch hrun
           | succ f =>
-            rw [Ref.run_one, hop] at hrun
-            simp only [] at hrun
-            cases f with
-            | zero => rw [Ref.run_zero] at hrun; exact nomatch hrun
-            | succ f =>
-              rw [hrune, hfold, Ref.run_lit_cons] at hrun
+            rw [hrune, Ref.run_lit_cons] at hrun
+            -- the decoded rune is a member of the orbit and is not U+FFFD
+            have key : ∀ (hw : (Utf8.decodeAt h pos).2 > 0),
+                (Utf8.decodeAt h pos).1 ∈ literalOrbit fo re.foldCase r → (Utf8.decodeAt h pos).1 ≠ Utf8.runeError →
+                (((literalOrbit fo re.foldCase r).map encodeFirst).foldl FirstByteSet.addNew res).bytes.mem (h.at pos) = true := by
+              intro hw hmem hne
+              rw [FirstByteSet.foldl_addNew_mem _ res hok, decode_first_byte h pos hb hw hne]
+              have h1 : encodeFirst (Utf8.decodeAt h pos).1 ∈ (literalOrbit fo re.foldCase r).map encodeFirst :=
+                List.mem_map.mpr ⟨_, hmem, rfl⟩
+              simp [h1, encodeFirst_lt]
+            cases hfold : re.foldCase with
+            | false =>
+              rw [hfold] at hrun
               simp only [Bool.false_eq_true, if_false] at hrun
               split at hrun
               · rename_i hcond
                 simp only [Bool.and_eq_true, decide_eq_true_eq] at hcond
                 obtain ⟨hw, hrc⟩ := hcond
-                have := (decode_ascii_inv h pos hw (by omega)).1
-                rw [FirstByteSet.addAlways_mem res r _ hok, this, ← hrc]
-                simp; omega
+                rw [hfold] at key
+                refine key hw ?_ ?_
+                · rw [← hrc]; exact List.mem_cons_self
+                · rw [← hrc]; exact hfr
+              · exact nomatch hrun
+            | true =>
+              rw [hfold] at hrun
+              simp only [if_true] at hrun
+              split at hrun
+              · rename_i hcond
+                simp only [Bool.and_eq_true, decide_eq_true_eq] at hcond
+                obtain ⟨hw, hrc⟩ := hcond
+                rw [hfold] at key
+                refine key hw ?_ ?_
+                · unfold literalOrbit
+                  rcases hfo _ _ hrc with heq | hin
+                  · rw [← heq]; exact List.mem_cons_self
+                  · exact List.mem_cons_of_mem _ hin
+                · intro hce
+                  rw [hce] at hrc
+                  unfold Ref.foldEq Ref.isAsciiLetter Utf8.runeError at hrc
+                  simp only [Bool.or_eq_true, Bool.and_eq_true, decide_eq_true_eq] at hrc
+                  unfold Utf8.runeError at hfr
+                  omega
               · exact nomatch hrun
     · -- charClass
       obtain ⟨hcnt, hres⟩ := Prod.mk.inj hx
       subst hres
-      refine ⟨addClassRanges_ok _ res hok, fun j hj => ?_, addClassRanges_complete _ res, ?_⟩
-      · rw [addClassRanges_mem _ res j hok, hj]; rfl
-      · intro h hb f pos k e hrun
-        cases f with
-        | zero => rw [Ref.run_zero] at hrun; exact nomatch hrun
-        | succ f =>
-          rw [Ref.run_one, hop] at hrun
-          simp only [] at hrun
-          split at hrun
-          · rename_i hcond
-            simp only [Bool.and_eq_true, decide_eq_true_eq] at hcond
-            obtain ⟨hw, hin⟩ := hcond
-            unfold Ref.inRanges at hin
-            have hle : (Utf8.decodeAt h pos).1 ≤ 127 := by
-              simp only [List.any_eq_true, Bool.and_eq_true, decide_eq_true_eq] at hin
-              obtain ⟨p, hp, _, h2⟩ := hin
-              simp only [List.all_eq_true, decide_eq_true_eq] at hfr
-              have := hfr p hp
-              omega
-            have hat := (decode_ascii_inv h pos hw hle).1
-            rw [addClassRanges_mem _ res _ hok, hat, hin]
-            simp; omega
-          · exact nomatch hrun
+      intro h hb f pos k e hrun hp
+      cases f with
+      | zero => rw [Ref.run_zero] at hrun; exact nomatch hrun
+      | succ f =>
+        rw [Ref.run_one, hop] at hrun
+        simp only [] at hrun
+        split at hrun
+        · rename_i hcond
+          simp only [Bool.and_eq_true, decide_eq_true_eq] at hcond
+          obtain ⟨hw, hin⟩ := hcond
+          unfold Ref.inRanges at hin
+          rw [List.any_eq_true] at hin
+          obtain ⟨p, hpm, hpr⟩ := hin
+          simp only [Bool.and_eq_true, decide_eq_true_eq] at hpr
+          rw [addClassRanges_mem _ res _ hok]
+          have hlt := hb pos
+          have hany : (pairs re.rune).any (fun p =>
+              (decide (p.2 > 0x7F) && decide (128 ≤ h.at pos)) ||
+              (decide (p.1 ≤ h.at pos) && decide (h.at pos ≤ p.2) && decide (h.at pos ≤ 0x7F))) = true := by
+            rw [List.any_eq_true]
+            refine ⟨p, hpm, ?_⟩
+            by_cases hhi : 128 ≤ h.at pos
+            · have := decode_high h pos hw hhi
+              have h2 : p.2 > 0x7F := by omega
+              simp [h2, hhi]
+            · have hd := decode_ascii_fwd h pos hp (by omega)
+              rw [hd] at hpr
+              simp only [] at hpr
+              have h3 : h.at pos ≤ 127 := by omega
+              simp [hpr.1, hpr.2, h3]
+          simp [hlt, hany]
+        · exact nomatch hrun
     · -- anyCharNotNL
       obtain ⟨_, hres⟩ := Prod.mk.inj hx
       subst hres
-      refine ⟨FirstByteSet.foldl_addNew_ok _ res hok, fun j hj => ?_, ?_, ?_⟩
-      · rw [FirstByteSet.foldl_addNew_mem _ res hok, hj]; rfl
-      · exact foldl_addNew_complete _ res
-      · intro h hb f pos k e hrun
-        cases f with
-        | zero => rw [Ref.run_zero] at hrun; exact nomatch hrun
-        | succ f =>
-          rw [Ref.run_one, hop] at hrun
-          simp only [] at hrun
-          split at hrun
-          · rename_i hcond
-            simp only [Bool.and_eq_true, decide_eq_true_eq] at hcond
-            obtain ⟨hw, hne⟩ := hcond
-            have hp := decode_width_pos h pos hw
-            have hne10 : h.at pos ≠ 10 := by
-              intro h10
-              rw [decode_ascii_fwd h pos hp (by omega)] at hne
-              exact hne h10
-            rw [FirstByteSet.foldl_addNew_mem _ res hok]
-            have := hb pos
-            simp [hne10, this]
-          · exact nomatch hrun
+      intro h hb f pos k e hrun hp
+      cases f with
+      | zero => rw [Ref.run_zero] at hrun; exact nomatch hrun
+      | succ f =>
+        rw [Ref.run_one, hop] at hrun
+        simp only [] at hrun
+        split at hrun
+        · rename_i hcond
+          simp only [Bool.and_eq_true, decide_eq_true_eq] at hcond
+          obtain ⟨hw, hne⟩ := hcond
+          have hne10 : h.at pos ≠ 10 := by
+            intro h10
+            rw [decode_ascii_fwd h pos hp (by omega)] at hne
+            exact hne h10
+          rw [FirstByteSet.foldl_addNew_mem _ res hok]
+          have := hb pos
+          simp [hne10, this]
+        · exact nomatch hrun
     · -- anyChar
       obtain ⟨_, hres⟩ := Prod.mk.inj hx
       subst hres
-      refine ⟨FirstByteSet.foldl_addNew_ok _ res hok, fun j hj => ?_, ?_, ?_⟩
-      · rw [FirstByteSet.foldl_addNew_mem _ res hok, hj]; rfl
-      · exact foldl_addNew_complete _ res
-      · intro h hb f pos k e hrun
-        rw [FirstByteSet.foldl_addNew_mem _ res hok]
-        have := hb pos
-        simp [this]
+      intro h hb f pos k e hrun hp
+      rw [FirstByteSet.foldl_addNew_mem _ res hok]
+      have := hb pos
+      simp [this]
+    · -- endText: `\z` never succeeds inside the haystack
+      intro h hb f pos k e hrun hp
+      cases f with
+      | zero => rw [Ref.run_zero] at hrun; exact nomatch hrun
+      | succ f =>
+        rw [Ref.run_one, hop] at hrun
+        simp only [] at hrun
+        rw [if_neg (show ¬ pos = h.size by omega)] at hrun
+        exact nomatch hrun
     · -- capture
       cases hsub : re.sub with
       | nil => rw [hsub] at hfr; exact nomatch hfr
@@ -2348,15 +2607,14 @@ theorem extract_sound : ∀ fuel re res res', res.Ok → extractFirstBytesRec fu
           rw [hsub] at hx hfr
           simp only [] at hx hfr
           have hxo := ih x res res' hok hx hfr
-          refine ⟨hxo.ok, hxo.mono, hxo.complete, ?_⟩
-          intro h hb f pos k e hrun
+          intro h hb f pos k e hrun hp
           cases f with
           | zero => rw [Ref.run_zero] at hrun; exact nomatch hrun
           | succ f =>
             rw [Ref.run_one, hop] at hrun
             simp only [] at hrun
             rw [hsub] at hrun
-            exact firstOK_seq_cons [] hxo.first h hb f pos k e hrun
+            exact firstOK_seq_cons [] hxo h hb f pos k e hrun hp
     · -- plus
       cases hsub : re.sub with
       | nil => rw [hsub] at hfr; exact nomatch hfr
@@ -2367,15 +2625,14 @@ theorem extract_sound : ∀ fuel re res res', res.Ok → extractFirstBytesRec fu
           rw [hsub] at hx hfr
           simp only [] at hx hfr
           have hxo := ih x res res' hok hx hfr
-          refine ⟨hxo.ok, hxo.mono, hxo.complete, ?_⟩
-          intro h hb f pos k e hrun
+          intro h hb f pos k e hrun hp
           cases f with
           | zero => rw [Ref.run_zero] at hrun; exact nomatch hrun
           | succ f =>
             rw [Ref.run_one, hop] at hrun
             simp only [] at hrun
             rw [hsub] at hrun
-            exact hxo.first h hb f pos _ e hrun
+            exact hxo h hb f pos _ e hrun hp
     · -- repeat_
       simp only [Bool.and_eq_true, decide_eq_true_eq] at hfr
       obtain ⟨hmin, hfr⟩ := hfr
@@ -2389,8 +2646,7 @@ theorem extract_sound : ∀ fuel re res res', res.Ok → extractFirstBytesRec fu
           rw [hsub] at hx hfr
           simp only [] at hx hfr
           have hxo := ih x res res' hok hx hfr
-          refine ⟨hxo.ok, hxo.mono, hxo.complete, ?_⟩
-          intro h hb f pos k e hrun
+          intro h hb f pos k e hrun hp
           cases f with
           | zero => rw [Ref.run_zero] at hrun; exact nomatch hrun
           | succ f =>
@@ -2404,7 +2660,7 @@ theorem extract_sound : ∀ fuel re res res', res.Ok → extractFirstBytesRec fu
             | zero => rw [Ref.run_zero] at hrun; exact nomatch hrun
             | succ f =>
               rw [Ref.run_rep_succ] at hrun
-              exact hxo.first h hb f pos _ e hrun
+              exact hxo h hb f pos _ e hrun hp
     · -- concat
       cases hfind : re.sub.find? (fun s => !(decide (s.op = .beginLine) || decide (s.op = .beginText))) with
       | none => rw [hfind] at hfr; exact nomatch hfr
@@ -2412,43 +2668,87 @@ theorem extract_sound : ∀ fuel re res res', res.Ok → extractFirstBytesRec fu
         rw [hfind] at hx hfr
         simp only [] at hx hfr
         have hxo := ih x res res' hok hx hfr
-        refine ⟨hxo.ok, hxo.mono, hxo.complete, ?_⟩
-        intro h hb f pos k e hrun
+        intro h hb f pos k e hrun hp
         cases f with
         | zero => rw [Ref.run_zero] at hrun; exact nomatch hrun
         | succ f =>
           rw [Ref.run_one, hop] at hrun
           simp only [] at hrun
-          exact firstOK_seq_find re.sub x hfind hxo.first h hb f pos k e hrun
+          exact firstOK_seq_find re.sub x hfind hxo h hb f pos k e hrun hp
     · -- alternate
       simp only [List.all_eq_true] at hfr
-      obtain ⟨h1, h2, h3, h4⟩ := altLoop_sound fuel ih re.sub res res' hok hx hfr
-      refine ⟨h1, h2, h3, ?_⟩
-      intro h hb f pos k e hrun
+      have h4 := altLoop_sound fo fuel ih re.sub res res' hok hx hfr
+      intro h hb f pos k e hrun hp
       cases f with
       | zero => rw [Ref.run_zero] at hrun; exact nomatch hrun
       | succ f =>
         rw [Ref.run_one, hop] at hrun
         simp only [] at hrun
-        exact firstOK_alts re.sub h4 h hb f pos k e hrun
+        exact firstOK_alts re.sub h4 h hb f pos k e hrun hp
 
-/-- **Soundness of the first-byte rejection filter on the fragment**: if `ExtractFirstBytes` succeeds on a pattern of
-    the fragment, then every haystack (of bytes) on which the pattern matches at offset 0 starts with a byte of the
-    set — so meta's "`!Contains(haystack[0])` ⇒ no match" shortcut is correct there.  The set is moreover complete. -/
-theorem firstBytes_filter_sound (re : Re) (fb : FirstByteSet) (hx : extractFirstBytes re = some fb)
-    (frag : fbFrag 21 re = true) (h : Bytes) (hb : ∀ i, h.at i < 256) (e : Nat)
-    (hm : Ref.matchAt re h 0 = some e) : fb.contains (h.at 0) = true ∧ fb.complete = true := by
+theorem extractFirstBytes_some (fo : Nat → List Nat) (re : Re) (fb : FirstByteSet)
+    (hx : extractFirstBytes fo re = some fb) : extractFirstBytesRec fo 21 re {} = (true, fb) := by
   unfold extractFirstBytes at hx
-  cases hr : extractFirstBytesRec 21 re {} with
+  cases hr : extractFirstBytesRec fo 21 re {} with
   | mk b res =>
     rw [hr] at hx
     cases b with
     | false => exact nomatch hx
     | true =>
       simp only [Option.some.injEq] at hx
-      subst hx
-      have := extract_sound 21 re {} res FirstByteSet.ok_empty hr frag
-      exact ⟨this.first h hb _ 0 _ e hm, this.complete⟩
+      rw [hx]
+
+/-- **what a non-nil result of `ExtractFirstBytes` always is** (any pattern, any `foldOrbit`): `IsComplete()` is `true`
+    — the flag is only cleared on paths that return `nil` —, and `Count()` is the number of bytes `Contains` accepts, so
+    `IsUseful()` says exactly "the set is neither empty nor everything". -/
+theorem firstBytes_complete (fo : Nat → List Nat) (re : Re) (fb : FirstByteSet)
+    (hx : extractFirstBytes fo re = some fb) :
+    fb.complete = true ∧ fb.count = (List.range 256).countP fb.contains ∧ (∀ b, fb.contains b = true → b < 256) := by
+  have hr := extractFirstBytes_some fo re fb hx
+  have inv := extract_inv fo 21 re {} fb FirstByteSet.ok_empty hr
+  refine ⟨inv.complete, inv.count FirstByteSet.countOK_empty, fun b hb => ?_⟩
+  have hok := inv.ok
+  unfold FirstByteSet.Ok at hok
+  unfold FirstByteSet.contains Table.mem at hb
+  false_or_by_contra
+  rw [Array.getD_eq_getD_getElem?, Array.getElem?_eq_none (by omega)] at hb
+  exact nomatch hb
+
+/-- **Soundness of the first-byte rejection filter** on the fragment `fbFrag`: if `ExtractFirstBytes` succeeds, then
+    every NON-EMPTY haystack on which the pattern matches at offset 0 — with a match of any length, the empty one
+    included — starts with a byte of the set.  `hfo`: the `SimpleFold` orbits supplied to the model cover the (ASCII) case
+    folding of the reference matcher. -/
+theorem firstBytes_filter_sound (fo : Nat → List Nat) (hfo : OrbitSound fo) (re : Re) (fb : FirstByteSet)
+    (hx : extractFirstBytes fo re = some fb) (frag : fbFrag 21 re = true) (h : Bytes) (hb : ∀ i, h.at i < 256)
+    (hne : 0 < h.size) (e : Nat) (hm : Ref.matchAt re h 0 = some e) : fb.contains (h.at 0) = true :=
+  extract_sound fo hfo 21 re {} fb FirstByteSet.ok_empty (extractFirstBytes_some fo re fb hx) frag h hb _ 0 _ e hm hne
+
+/-- in a `FoldCase` literal every member of the orbit the model was given contributes its lead byte — whatever the
+    orbit is (this is where the non-ASCII fold partners, e.g. U+212A KELVIN SIGN for `k`, U+017F for `s`, enter the set;
+    the reference matcher itself folds the ASCII letters only) -/
+theorem firstBytes_literal_orbit (fo : Nat → List Nat) (re : Re) (fb : FirstByteSet) (r : Nat) (rs : List Nat)
+    (hop : re.op = .literal) (hrune : re.rune = r :: rs) (hx : extractFirstBytes fo re = some fb) :
+    fb.contains (encodeFirst r) = true ∧
+    (re.foldCase = true → ∀ m ∈ fo r, fb.contains (encodeFirst m) = true) := by
+  have hr := extractFirstBytes_some fo re fb hx
+  rw [extractFirstBytesRec, hop] at hr
+  simp only [] at hr
+  rw [hrune] at hr
+  simp only [] at hr
+  cases hr
+  unfold FirstByteSet.contains
+  refine ⟨?_, fun hf m hm => ?_⟩
+  · rw [FirstByteSet.foldl_addNew_mem _ _ FirstByteSet.ok_empty]
+    have : encodeFirst r ∈ (literalOrbit fo re.foldCase r).map encodeFirst :=
+      List.mem_map.mpr ⟨r, List.mem_cons_self, rfl⟩
+    simp [this, encodeFirst_lt]
+  · rw [FirstByteSet.foldl_addNew_mem _ _ FirstByteSet.ok_empty]
+    have : encodeFirst m ∈ (literalOrbit fo re.foldCase r).map encodeFirst := by
+      refine List.mem_map.mpr ⟨m, ?_, rfl⟩
+      unfold literalOrbit
+      rw [hf]
+      exact List.mem_cons_of_mem _ hm
+    simp [this, encodeFirst_lt]
 
 theorem getD_setIfInBounds_int (d : Array Int) (b x : Nat) (v : Int) :
     (d.setIfInBounds b v).getD x (-1) = if b = x ∧ b < d.size then v else d.getD x (-1) := by
@@ -4961,5 +5261,38 @@ theorem branchDispatcher_isMatch_eq_reference (hasFold : Nat → Bool) (hf : Fol
     d.isMatch h = (Ref.refFind re h 0).isSome := by
   rw [← branchDispatcher_eq_reference hasFold hf re d hd hdepth h 0]
   rfl
+
+/-! ### the first-byte filter as meta uses it -/
+
+/-- a pattern `\A…` (a concatenation whose first element is `OpBeginText`) cannot match at an offset other than 0 -/
+theorem matchAt_beginText_concat (re a : Re) (rest : List Re) (hop : re.op = .concat) (hsub : re.sub = a :: rest)
+    (ha : a.op = .beginText) (h : Bytes) (s : Nat) (hs : s ≠ 0) : Ref.matchAt re h s = none := by
+  unfold Ref.matchAt
+  obtain ⟨F, hF⟩ : ∃ F', Ref.fuelFor re h = F' + 3 := ⟨Ref.fuelFor re h - 3, by unfold Ref.fuelFor; omega⟩
+  rw [hF, Ref.run_one, hop]
+  simp only []
+  rw [hsub, Ref.run_seq_cons, Ref.run_one, ha]
+  simp only []
+  rw [if_neg hs]
+
+/-- **the callers' shortcut** (meta/find.go, find_indices.go, ismatch.go, engine.go:
+    `len(haystack) > 0 && !fb.Contains(haystack[0])` ⇒ "no match"): for a pattern `\A…` of the fragment, a non-empty
+    haystack whose first byte is not in the set has no match at all (at any offset, of any length). -/
+theorem firstBytes_reject_sound (fo : Nat → List Nat) (hfo : OrbitSound fo) (re a : Re) (rest : List Re)
+    (hop : re.op = .concat) (hsub : re.sub = a :: rest) (ha : a.op = .beginText) (fb : FirstByteSet)
+    (hx : extractFirstBytes fo re = some fb) (frag : fbFrag 21 re = true) (h : Bytes) (hb : ∀ i, h.at i < 256)
+    (hne : 0 < h.size) (hrej : fb.contains (h.at 0) = false) : Ref.refFind re h 0 = none := by
+  unfold Ref.refFind
+  apply findLoop_none
+  intro s' _
+  by_cases hs : s' = 0
+  · subst hs
+    cases hm : Ref.matchAt re h 0 with
+    | none => rfl
+    | some e =>
+      have := firstBytes_filter_sound fo hfo re fb hx frag h hb hne e hm
+      rw [hrej] at this
+      exact nomatch this
+  · exact matchAt_beginText_concat re a rest hop hsub ha h s' hs
 
 end Cx.Fast
